@@ -49,6 +49,7 @@ import (
 	jconfig "go.minekube.com/gate/pkg/edition/java/config"
 	"go.minekube.com/gate/pkg/edition/java/proto/packet"
 	"go.minekube.com/gate/pkg/edition/java/proto/packet/plugin"
+	"go.minekube.com/gate/pkg/edition/java/proxy"
 	"go.minekube.com/gate/pkg/edition/java/proxy/verifh/e2e"
 	"go.minekube.com/gate/pkg/edition/java/proxy/verifh/lib"
 	ref "go.minekube.com/gate/pkg/edition/java/proxy/verifh/ref/bungeeref"
@@ -112,6 +113,22 @@ func (c swConn) String() string {
 	return fmt.Sprintf("backend %s#%d (connection of %s)", c.srv, c.bc.N, c.owner)
 }
 
+// loginSeen reports whether the fake backend has recorded the login start of this connection
+// (LoginAt is written under the connection's mutex together with Login, and Stamps reads it
+// under the same mutex, so Login may be read afterwards).
+func loginSeen(bc *e2e.BackendConn) bool { return bc.Stamps().LoginAt != 0 }
+
+func playersHas(ps proxy.Players, name string) bool {
+	found := false
+	ps.Range(func(p proxy.Player) bool {
+		if p.Username() == name {
+			found = true
+		}
+		return !found
+	})
+	return found
+}
+
 func runAdapterSwitchLayer(r *lib.Run) {
 	protos := []proto.Protocol{47, 340, 393, 763, 765, 767}
 	stages := []string{"join", "dial", "login"}
@@ -124,7 +141,18 @@ func runAdapterSwitchLayer(r *lib.Run) {
 		// JoinGame also for a 1.20.2+ client, whose switch runs through the configuration
 		// state) and every protocol with each of them in the thorough tier
 		stage, variant := stages[i%3], variants[(i/3)%3]
-		pv := protos[(i+i/3)%len(protos)]
+		pv := protos[(i+2*(i/3))%len(protos)]
+		if pv >= 764 && stage == "join" && variant != "named" {
+			pv = 763 // see below: the requester of a 1.20.2+ switch has no backend left to ask from
+		}
+		if pv >= 764 && stage == "join" {
+			// a 1.20.2+ client is taken through the configuration state: the proxy (like
+			// Velocity) shuts the old backend connection down as soon as the new backend
+			// accepted the login, so while JoinGame is parked the switching player is on NO
+			// server and its old backend cannot ask anything. What remains observable is a
+			// NAMED player in that state (no current server, a connection in flight).
+			variant = "named"
+		}
 		adapterSwitchScenario(r, pv, stage, variant, rng.Intn(1<<30), st)
 	}
 	r.Set("adapter_switch_layer", map[string]any{
@@ -218,7 +246,7 @@ func adapterSwitchScenario(r *lib.Run, pv proto.Protocol, stage, variant string,
 	connOf := func(srv, user string) *e2e.BackendConn {
 		var found *e2e.BackendConn
 		for _, bc := range backends[srv].Conns() {
-			if bc.WaitLogin(time.Millisecond) && bc.Login != nil && bc.Login.Username == user {
+			if loginSeen(bc) && bc.Login != nil && bc.Login.Username == user {
 				found = bc // the latest
 			}
 		}
@@ -266,6 +294,9 @@ func adapterSwitchScenario(r *lib.Run, pv proto.Protocol, stage, variant string,
 			return false
 		}
 		cs := pp.CurrentServer()
+		if srv == "" {
+			return cs == nil
+		}
 		return cs != nil && cs.Server().ServerInfo().Name() == srv
 	}
 	stat["scenarios"]++
@@ -316,6 +347,23 @@ func adapterSwitchScenario(r *lib.Run, pv proto.Protocol, stage, variant string,
 		if !ok {
 			r.Inconclusive(fmt.Sprintf("adapter switch layer (%s): the arena backend never saw %s's connection reach the stall point", tag, p.name))
 			return
+		}
+	}
+	noCurrent := pv >= 764 && stage == "join"
+	if noCurrent {
+		for _, p := range players {
+			if !p.switching {
+				continue
+			}
+			old := p.server
+			p.server = "" // see runAdapterSwitchLayer: between login success and JoinGame it is on no server
+			// the old server's player list is updated when the closed connection's read loop ends;
+			// wait for that through the public API (stimulus only)
+			for end := time.Now().Add(5 * time.Second); time.Now().Before(end); time.Sleep(time.Millisecond) {
+				if rs := h.P.Server(old); rs != nil && !playersHas(rs.Players(), p.name) {
+					break
+				}
+			}
 		}
 	}
 	inFlight := func() bool {
@@ -416,7 +464,11 @@ func adapterSwitchScenario(r *lib.Run, pv proto.Protocol, stage, variant string,
 			stat["req_in_flight"]++
 			r.Count("adapter_switch_requests_while_in_flight:"+rq.sub, 1)
 		}
-		r.Count("adapter_switch_scenarios_in_flight:stage-"+stage+":"+variant, 1)
+		vlabel := variant
+		if noCurrent {
+			vlabel += "-on-no-server-meanwhile"
+		}
+		r.Count("adapter_switch_scenarios_in_flight:stage-"+stage+":"+vlabel, 1)
 	} else {
 		r.Inconclusive(fmt.Sprintf("adapter switch layer (%s): the switch was not in flight around the request batch (before=%v after=%v sent=%v)", tag, before, after, sent1))
 	}
@@ -472,7 +524,7 @@ func adapterSwitchScenario(r *lib.Run, pv proto.Protocol, stage, variant string,
 	for _, p := range players {
 		for _, srv := range []string{"lobby", "games", "arena"} {
 			for _, bc := range backends[srv].Conns() {
-				if bc.WaitLogin(time.Millisecond) && bc.Login != nil && bc.Login.Username == p.name {
+				if loginSeen(bc) && bc.Login != nil && bc.Login.Username == p.name {
 					conns = append(conns, swConn{owner: p.name, srv: srv, bc: bc, inflight: srv == "arena"})
 				}
 			}
@@ -611,9 +663,10 @@ func adapterSwitchScenario(r *lib.Run, pv proto.Protocol, stage, variant string,
 					got = responses[ri]
 				}
 			}
-			if got != nil && len(want) > 0 && canonData(want[0].Data) != canonData(got) {
+			if got != nil && (len(want) == 0 || canonData(want[0].Data) != canonData(got)) {
 				// a response that exactly answers a LATER query of the same sub-channel means this
-				// query's own response is missing, not that it is wrong
+				// query's own response is missing (or, if none is expected, rightly absent), not
+				// that it is wrong / unexpected
 				for _, later := range ph.queries[qi+1:] {
 					le := ref.Respond(ph.st, "Alice", channel, later.data)
 					if le.Sub == rq.sub && len(le.Outcomes[0].Responses) > 0 && canonData(le.Outcomes[0].Responses[0].Data) == canonData(got) {
